@@ -17,7 +17,9 @@ T2: (a) sessions: a REAL SearchConstraintSearchSince(current_date,
 """
 import calendar
 import json
+import os
 import re
+import time
 from datetime import date, datetime, timedelta
 
 import vlib
@@ -166,22 +168,80 @@ VARIANTS = {
             f"{ts[0]:04d}.000 00:00:00 j", f"{ts[0]:04d}.367 00:00:00 j",
             f"{ts[0] if not calendar.isleap(ts[0]) else ts[0] + 1:04d}"
             ".366 12:00:00 j"]},
+    # matchers that SUBCLASS other matchers and override `patterns` (and
+    # more): each class must use its own patterns whichever of the family was
+    # used first in this process.  Sessions run in this dict's order, so
+    # family 1 is driven parent -> child -> grandchild, family 2 child ->
+    # parent.
+    'inh_iso': {
+        'patterns': [P_STD], 'overrides': {}, 'fmt': None,
+        'render': [lambda t: f"{t[0]:04d}-{t[1]:02d}-{t[2]:02d} {hms(t)} p"],
+        'light': True},
+    'inh_dmy': {
+        'parent': 'inh_iso', 'patterns': [P_BRACKET, P_DMY],
+        'overrides': {}, 'fmt': '%d.%m.%Y %H:%M:%S',
+        'render': [
+            lambda t: f"{t[2]:02d}.{t[1]:02d}.{t[0]:04d} {hms(t)} child",
+            lambda t: f"[{t[2]:02d}/{t[1]:02d}/{t[0]:04d}:{hms(t)}] c"],
+        'light': True},
+    'inh_yy': {
+        'parent': 'inh_dmy', 'patterns': [P_YY],
+        'overrides': {'year': lambda m: 2000 + int(m.group('yy'))},
+        'fmt': None,        # inherits the parent's format
+        'render': [
+            lambda t: (f"{t[0] - 2000:02d}{t[1]:02d}{t[2]:02d} {hms(t)} gc"
+                       if 2000 <= t[0] <= 2099 else None)],
+        'light': True},
+    'inh2_iso': {
+        'parent': 'inh2_dmy', 'patterns': [P_STD], 'overrides': {},
+        'fmt': None,
+        'render': [lambda t: f"{t[0]:04d}-{t[1]:02d}-{t[2]:02d}T{hms(t)} c"],
+        'light': True},
+    'inh2_dmy': {
+        'patterns': [P_DMY], 'overrides': {}, 'fmt': '%d.%m.%Y %H:%M:%S',
+        'render': [
+            lambda t: f"{t[2]:02d}.{t[1]:02d}.{t[0]:04d} {hms(t)} parent"],
+        'light': True},
 }
 FIELDS = ['year', 'month', 'day', 'hours', 'minutes', 'seconds']
+YY_ONLY = ('yy', 'inh_yy')      # can only write years 2000..2099
 # every one of the six keys is derived by a property in some variant
 assert {k for v in VARIANTS.values() for k in v['overrides']} == set(FIELDS)
 
 
-def matcher_class(name):
-    """ the TimestampMatcherBase subclass handed to the implementation """
-    from searchkit.constraints import TimestampMatcherBase
+def eff_overrides(name):
+    """ field overrides of a variant incl. those inherited from its parent """
     v = VARIANTS[name]
+    ov = dict(eff_overrides(v['parent'])) if v.get('parent') else {}
+    ov.update(v['overrides'])
+    return ov
+
+
+def eff_fmt(name):
+    v = VARIANTS[name]
+    if v['fmt']:
+        return v['fmt']
+    return eff_fmt(v['parent']) if v.get('parent') else default_fmt()
+
+
+def matcher_class(name, made=None):
+    """ the TimestampMatcherBase subclass handed to the implementation; a
+    variant with a 'parent' subclasses the parent's class.  `made` memoises
+    the classes of one check run. """
+    from searchkit.constraints import TimestampMatcherBase
+    made = {} if made is None else made
+    if name in made:
+        return made[name]
+    v = VARIANTS[name]
+    base = matcher_class(v['parent'], made) if v.get('parent') \
+        else TimestampMatcherBase
     ns = {'patterns': property(lambda self, p=v['patterns']: list(p))}
     if v['fmt']:
         ns['DEFAULT_DATETIME_FORMAT'] = v['fmt']
     for key, fn in v['overrides'].items():
         ns[key] = property(lambda self, fn=fn: fn(self.result))
-    return type('Matcher_' + name, (TimestampMatcherBase,), ns)
+    made[name] = type('Matcher_' + name, (base,), ns)
+    return made[name]
 
 
 def default_fmt():
@@ -191,15 +251,17 @@ def default_fmt():
 
 def oracle(name, line):
     """ the matcher as an oracle, with plain `re` only: fields of the first
-    pattern that matches at the start of the line, or None """
+    of the variant's OWN patterns that matches at the start of the line, or
+    None """
     v = VARIANTS[name]
+    ov = eff_overrides(name)
     if isinstance(line, bytes):
         line = line.decode('utf-8', errors='backslashreplace')
     for p in v['patterns']:
         m = re.match(p, line)
         if m:
-            return tuple(int(v['overrides'][k](m)) if k in v['overrides']
-                         else int(m.group(k)) for k in FIELDS)
+            return tuple(int(ov[k](m)) if k in ov else int(m.group(k))
+                         for k in FIELDS)
     return None
 
 
@@ -255,6 +317,21 @@ CURRENTS = [
     (2001, 3, 1, 0, 0, 0), (2025, 4, 6, 1, 0, 0), (2000, 1, 1, 0, 0, 0),
     (2099, 12, 31, 23, 59, 59), (9999, 12, 31, 23, 59, 59),
     (2024, 12, 31, 0, 0, 0), (1600, 3, 1, 0, 30, 0), (2024, 3, 11, 5, 6, 7)]
+# (POSIX TZ string, current_date, kwargs): since instants in / at the edges
+# of the skipped hour (spring) and the repeated hour (autumn)
+UK, US = 'GMT0BST,M3.5.0/1,M10.5.0', 'EST5EDT,M3.2.0,M11.1.0'
+TZ_CASES = [
+    (UK, (2024, 3, 31, 2, 30, 0), {'hours': 1}),     # since 01:30 (skipped)
+    (UK, (2024, 4, 1, 1, 30, 0), {'days': 1}),       # since 03-31 01:30
+    (UK, (2024, 3, 31, 1, 0, 0), {'hours': 0}),      # since = 01:00 (edge)
+    (UK, (2024, 3, 31, 2, 0, 0), {'days': 0, 'hours': 0}),
+    (UK, (2024, 3, 31, 23, 59, 59), {}),             # since 03-30 23:59:59
+    (UK, (2024, 10, 27, 2, 30, 0), {'hours': 1}),    # since 01:30 (repeated)
+    (UK, (2024, 10, 28, 1, 0, 0), {'days': 1, 'hours': 25}),
+    (US, (2024, 3, 10, 3, 15, 0), {'hours': 1}),     # since 02:15 (skipped)
+    (US, (2024, 3, 17, 2, 30, 0), {'days': 7}),
+    (US, (2024, 11, 3, 2, 30, 0), {'hours': 1}),     # since 01:30 (repeated)
+]
 DAYS = [0, 1, 7, 400]
 HOURS = [0, 1, 24, 25, 1000]
 DMIN, DMAX = datetime.min, datetime.max.replace(microsecond=0)
@@ -295,8 +372,8 @@ def boundary_kind(cur, since):
     return k or ['none']
 
 
-def session_lines(rng, name, cur, since):
-    """ [(class, text-or-bytes)] for one session """
+def session_lines(rng, name, cur, since, extra_stamps=()):
+    """ [(class, text-or-bytes, intended fields)] for one session """
     v = VARIANTS[name]
     stamps = []     # (class, tuple) - tuples may be no real dates
 
@@ -327,6 +404,8 @@ def session_lines(rng, name, cur, since):
                               datetime(2099, 12, 31, 23, 59, 59)))
     add('min', DMIN)
     add('max', DMAX)
+    for cls, d in extra_stamps:
+        add(cls, d)
     # text that looks like a timestamp but is no real date/time
     y = since.year
     nl = y if not calendar.isleap(y) else y + 1
@@ -354,9 +433,18 @@ def session_lines(rng, name, cur, since):
             lines.append(('invalid', txt, None))
     ts = tup(since)
     own = VARIANTS[name]['render'][0](ts) or "2024"
-    other = VARIANTS['multi' if name != 'multi' else 'yy']['render'][-1]
+    # a line in some OTHER variant's format (for a subclass: its parent's)
+    other = "ERROR foo"
+    cands = [VARIANTS[v['parent']]['render'][0]] if v.get('parent') else []
+    cands += [VARIANTS['multi']['render'][2], VARIANTS['std']['render'][0],
+              VARIANTS['yy']['render'][0]]
+    for r in cands:
+        txt = r(ts)
+        if txt and oracle(name, txt) is None:
+            other = txt
+            break
     for txt in ("no timestamp at all", "", " " + own, "x" + own, own[:8],
-                other(ts) if 2000 <= ts[0] <= 2099 else "ERROR foo"):
+                other):
         if rng.random() < 0.7:
             lines.append(('undated', txt, None))
     rng.shuffle(lines)
@@ -372,7 +460,7 @@ def run_session(name, cls, cur_t, kw, lines):
     """ drive the REAL constraint; returns a dict of observations """
     from searchkit.constraints import (SearchConstraintSearchSince,
                                        CouldNotApplyConstraint)
-    fmt = VARIANTS[name]['fmt'] or default_fmt()
+    fmt = eff_fmt(name)
     obs = {'since': None, 'out': [], 'exc': [], 'running': [],
            'pass': None, 'fail': None}
     try:
@@ -412,7 +500,8 @@ def sessions(chk):
     params = vlib.gen_info()['params']
     ddef, hdef = params.get('SINCE_DEFAULT_DAYS'), \
         params.get('SINCE_DEFAULT_HOURS')
-    classes = {n: matcher_class(n) for n in VARIANTS}
+    made = {}
+    classes = {n: matcher_class(n, made) for n in VARIANTS}
     grid = kwargs_grid()
     currents = list(CURRENTS)
     currents += [tup(rand_dt(rng, datetime(3, 1, 1)))
@@ -426,121 +515,149 @@ def sessions(chk):
         if nviol[0] <= 40:
             chk.violation(sig, detail, witness=witness)
 
+    def one(name, cur_t, kw, extra_stamps=()):
+        cur = datetime(*cur_t)
+        since = spec_since(cur, kw)
+        lines = session_lines(rng, name, cur, since, extra_stamps)
+        raws = [oracle(name, txt) for _c, txt, _t in lines]
+        for (lc, txt, t), raw in zip(lines, raws):
+            # generator's intention vs the oracle (harness sanity)
+            if (lc != 'undated' and t is not None and raw != t) \
+                    or (lc != 'undated' and t is None and
+                        (raw is None or
+                         spec_outcome(raw, since) != UND)) \
+                    or (lc == 'undated' and name != 'multi'
+                        and raw is not None):
+                chk.broken.append({
+                    'obligation': 'harness oracle self-check',
+                    'why': f"{name}: {txt!r} intended {t} oracle "
+                           f"{raw}"})
+        obs = run_session(name, classes[name], cur_t, kw, lines)
+        spec_out = [spec_outcome(raw, since) for raw in raws]
+        spec_pass = spec_out.count(PASS)
+        spec_fail = spec_out.count(FAIL)
+        base = {'variant': name, 'current_date': list(cur_t),
+                'kwargs': kw,
+                'lines': [jsonable(x[1]) for x in lines],
+                'spec_since': str(since), 'TZ': os.environ.get('TZ'),
+                'impl_since': str(obs['since'])}
+        impl_ok = True
+        if obs['since'] != since:
+            impl_ok = False
+            viol("since-date-wrong given="
+                 + ",".join(sorted(kw)) + (
+                     " days-nonzero" if kw.get('days') else ""),
+                 dict(base, why="since_date is not current_date "
+                      "minus the window"), True)
+            if not isinstance(obs['since'], datetime):
+                return
+        for i, (o, s) in enumerate(zip(obs['out'], spec_out)):
+            if o != s:
+                impl_ok = False
+                what = 'unexpected-exception' \
+                    if isinstance(o, tuple) else 'line-outcome-wrong'
+                viol(f"{what} class={lines[i][0]} impl={o} spec={s}",
+                     dict(base, line=jsonable(lines[i][1]),
+                          line_fields=raws[i], impl_outcome=o,
+                          spec_outcome=s, exceptions=obs['exc'][:2],
+                          encoding='1 pass, 0 fail, 2 undecidable'),
+                     True)
+                break
+        run_ok = True
+        p = f = 0
+        # the counters must follow the constraint's OWN answers
+        # (pass = lines it passed, fail = lines it failed, undecided
+        # lines counted nowhere), after every line
+        for o, (ip, if_) in zip(obs['out'], obs['running']):
+            p += (o == PASS)
+            f += (o == FAIL)
+            if (ip, if_) != (p, f):
+                run_ok = False
+        if not run_ok or (obs['pass'], obs['fail']) != (p, f):
+            impl_ok = False
+            viol("counters-wrong",
+                 dict(base, impl_counters=[obs['pass'], obs['fail']],
+                      impl_outcomes=obs['out'],
+                      counters_after_each_line=obs['running'],
+                      lines_passed=p, lines_failed=f,
+                      spec_counters=[spec_pass, spec_fail]), True)
+        # the same case for the Coq model / Coq spec
+        md = kw.get('days', ddef)
+        mh = kw.get('hours', hdef)
+        if md is None or mh is None:
+            return      # T1 failed; already a broken obligation
+        cases.append(
+            f"({coq_dt(cur_t)}, {md}, {mh}, ["
+            + "; ".join("None" if r is None else "Some " + coq_dt(r)
+                        for r in raws) + "])")
+        try:
+            isecs = dt_secs(obs['since'])
+        except AttributeError:
+            isecs = -1
+        wants.append([isecs,
+                      [o if isinstance(o, int) else 3
+                       for o in obs['out']],
+                      obs['pass'], obs['fail']])
+        meta.append((base, impl_ok))
+        # coverage
+        chk.coverage['evaluations'] += len(lines)
+        chk.dist('sessions')
+        chk.dist('variant:' + name)
+        chk.dist('window:' + ('default' if not kw else
+                              '+'.join(sorted(kw))))
+        for k in boundary_kind(cur, since):
+            chk.dist('window-crosses:' + k)
+        for (lc, _txt, _t), raw, s in zip(lines, raws, spec_out):
+            chk.dist('line:' + lc)
+            chk.dist('outcome:' + ('fail', 'pass', 'undecidable')[s])
+            if lc in ('on', 'before1', 'after1', 'invalid'):
+                nontrivial.add((name, isecs, raw))
+        if len(chk.coverage['samples']) < 3 and kw.get('days') \
+                and 'hours' in kw:
+            chk.sample(dict(base, impl_outcomes=obs['out'],
+                            impl_counters=[obs['pass'],
+                                           obs['fail']]))
+
     for name in VARIANTS:
         curs = currents
-        if name == 'yy':
+        if chk.quick and VARIANTS[name].get('light'):
+            curs = currents[3:13]
+        if name in YY_ONLY:
             curs = [c for c in currents if 2000 <= c[0] <= 2100] + \
                 [tup(rand_dt(rng, datetime(2000, 1, 1),
                              datetime(2099, 12, 31)))
                  for _ in range(4 if chk.quick else 40)]
         for cur_t in curs:
-            cur = datetime(*cur_t)
             kws = grid
             if chk.quick and (cur_t not in CURRENTS[:12]
-                              or name in ('ampm', 'soh', 'doy')):
-                kws = [grid[i] for i in
-                       sorted(rng.sample(range(len(grid)), 8))]
+                              or name in ('ampm', 'soh', 'doy')
+                              or VARIANTS[name].get('light')):
+                kws = [grid[i] for i in sorted(rng.sample(
+                    range(len(grid)),
+                    5 if VARIANTS[name].get('light') else 8))]
             for kw in kws:
-                since = spec_since(cur, kw)
-                lines = session_lines(rng, name, cur, since)
-                raws = [oracle(name, txt) for _c, txt, _t in lines]
-                for (lc, txt, t), raw in zip(lines, raws):
-                    # generator's intention vs the oracle (harness sanity)
-                    if (lc != 'undated' and t is not None and raw != t) \
-                            or (lc != 'undated' and t is None and
-                                (raw is None or
-                                 spec_outcome(raw, since) != UND)) \
-                            or (lc == 'undated' and name != 'multi'
-                                and raw is not None):
-                        chk.broken.append({
-                            'obligation': 'harness oracle self-check',
-                            'why': f"{name}: {txt!r} intended {t} oracle "
-                                   f"{raw}"})
-                obs = run_session(name, classes[name], cur_t, kw, lines)
-                spec_out = [spec_outcome(raw, since) for raw in raws]
-                spec_pass = spec_out.count(PASS)
-                spec_fail = spec_out.count(FAIL)
-                base = {'variant': name, 'current_date': list(cur_t),
-                        'kwargs': kw,
-                        'lines': [jsonable(x[1]) for x in lines],
-                        'spec_since': str(since),
-                        'impl_since': str(obs['since'])}
-                impl_ok = True
-                if obs['since'] != since:
-                    impl_ok = False
-                    viol("since-date-wrong given="
-                         + ",".join(sorted(kw)) + (
-                             " days-nonzero" if kw.get('days') else ""),
-                         dict(base, why="since_date is not current_date "
-                              "minus the window"), True)
-                    if not isinstance(obs['since'], datetime):
-                        continue
-                for i, (o, s) in enumerate(zip(obs['out'], spec_out)):
-                    if o != s:
-                        impl_ok = False
-                        what = 'unexpected-exception' \
-                            if isinstance(o, tuple) else 'line-outcome-wrong'
-                        viol(f"{what} class={lines[i][0]} impl={o} spec={s}",
-                             dict(base, line=jsonable(lines[i][1]),
-                                  line_fields=raws[i], impl_outcome=o,
-                                  spec_outcome=s, exceptions=obs['exc'][:2],
-                                  encoding='1 pass, 0 fail, 2 undecidable'),
-                             True)
-                        break
-                run_ok = True
-                p = f = 0
-                # the counters must follow the constraint's OWN answers
-                # (pass = lines it passed, fail = lines it failed, undecided
-                # lines counted nowhere), after every line
-                for o, (ip, if_) in zip(obs['out'], obs['running']):
-                    p += (o == PASS)
-                    f += (o == FAIL)
-                    if (ip, if_) != (p, f):
-                        run_ok = False
-                if not run_ok or (obs['pass'], obs['fail']) != (p, f):
-                    impl_ok = False
-                    viol("counters-wrong",
-                         dict(base, impl_counters=[obs['pass'], obs['fail']],
-                              impl_outcomes=obs['out'],
-                              counters_after_each_line=obs['running'],
-                              lines_passed=p, lines_failed=f,
-                              spec_counters=[spec_pass, spec_fail]), True)
-                # the same case for the Coq model / Coq spec
-                md = kw.get('days', ddef)
-                mh = kw.get('hours', hdef)
-                if md is None or mh is None:
-                    continue    # T1 failed; already a broken obligation
-                cases.append(
-                    f"({coq_dt(cur_t)}, {md}, {mh}, ["
-                    + "; ".join("None" if r is None else "Some " + coq_dt(r)
-                                for r in raws) + "])")
-                try:
-                    isecs = dt_secs(obs['since'])
-                except AttributeError:
-                    isecs = -1
-                wants.append([isecs,
-                              [o if isinstance(o, int) else 3
-                               for o in obs['out']],
-                              obs['pass'], obs['fail']])
-                meta.append((base, impl_ok))
-                # coverage
-                chk.coverage['evaluations'] += len(lines)
-                chk.dist('sessions')
-                chk.dist('variant:' + name)
-                chk.dist('window:' + ('default' if not kw else
-                                      '+'.join(sorted(kw))))
-                for k in boundary_kind(cur, since):
-                    chk.dist('window-crosses:' + k)
-                for (lc, _txt, _t), raw, s in zip(lines, raws, spec_out):
-                    chk.dist('line:' + lc)
-                    chk.dist('outcome:' + ('fail', 'pass', 'undecidable')[s])
-                    if lc in ('on', 'before1', 'after1', 'invalid'):
-                        nontrivial.add((name, isecs, raw))
-                if len(chk.coverage['samples']) < 3 and kw.get('days') \
-                        and 'hours' in kw:
-                    chk.sample(dict(base, impl_outcomes=obs['out'],
-                                    impl_counters=[obs['pass'],
-                                                   obs['fail']]))
+                one(name, cur_t, kw)
+    # a slice under a DST zone: the constraint compares naive date-times, so
+    # nothing may depend on the process time zone; boundaries are placed
+    # inside / next to the hour that local time skips (and the one it repeats)
+    old_tz = os.environ.get('TZ')
+    try:
+        for tz, cur_t, kw in TZ_CASES:
+            os.environ['TZ'] = tz
+            time.tzset()
+            since = spec_since(datetime(*cur_t), kw)
+            extra = [('tz-gap', since + timedelta(seconds=k)) for k in
+                     (1800, 1860, 2700, 3599, 3600, 5340, 7200, -1800, -3599,
+                      -3600, -3601, -7200)]
+            for name in ('std', 'ampm'):
+                one(name, cur_t, kw, extra)
+                chk.dist('tz-sessions')
+    finally:
+        if old_tz is None:
+            os.environ.pop('TZ', None)
+        else:
+            os.environ['TZ'] = old_tz
+        time.tzset()
     chk.coverage['distinct_nontrivial'] += len(nontrivial)
     chk.coverage['traces_validated_against_impl'] += len(cases)
     return cases, wants, meta, viol
@@ -731,6 +848,9 @@ def replay(chk, path):
     with open(path, encoding='utf-8') as f:
         w = json.load(f)['witness']
     name = w['variant']
+    if w.get('TZ'):
+        os.environ['TZ'] = w['TZ']
+        time.tzset()
     lines = [('replay', x['bytes'].encode('utf-8') if isinstance(x, dict)
               else x, None) for x in w['lines']]
     cur_t = tuple(w['current_date'])
